@@ -51,6 +51,36 @@ class Ob:
         return o
 
 
+# Hard watchdog.  z3's own timeout is cooperative and some arithmetic inner loops (nla::core::patch_monomial on huge
+# integers) do not poll it: a query can then run for tens of minutes.  A daemon thread in each worker process notices a
+# query that has overrun 6 x its timeout + 45 s, records the obligation group that posed it in <unit>.skip and kills the
+# process; the driver re-runs the unit, which reports that group as inconclusive ("solver did not return").
+WATCH = {'since': None, 'limit': None, 'group': None, 'skipfile': None, 'thread': None}
+
+
+def start_watchdog(skipfile):
+    import threading
+    WATCH['skipfile'] = skipfile
+    WATCH['since'] = None
+    if WATCH['thread'] is not None and WATCH['thread'].is_alive() and WATCH.get('pid') == os.getpid():
+        return
+
+    def run():
+        while True:
+            time.sleep(5.0)
+            t = WATCH['since']
+            if t is not None and WATCH['limit'] is not None and time.time() - t > WATCH['limit']:
+                try:
+                    with open(WATCH['skipfile'], 'a') as f:
+                        f.write(str(WATCH['group']) + '\n')
+                finally:
+                    os._exit(77)
+    th = threading.Thread(target=run, daemon=True)
+    th.start()
+    WATCH['thread'] = th
+    WATCH['pid'] = os.getpid()
+
+
 def solve(constraints, timeout_ms=10000, want_smt=False, logic=None, tactic=None):
     """returns (verdict, model or None, seconds, smt2 text or None)"""
     if tactic:
@@ -68,10 +98,14 @@ def solve(constraints, timeout_ms=10000, want_smt=False, logic=None, tactic=None
         if len(smt) > 6000:
             smt = smt[:6000] + '\n; ... truncated'
     t0 = time.time()
+    WATCH['since'] = t0
+    WATCH['limit'] = 6.0 * timeout_ms / 1000.0 + 45.0
     try:
         r = s.check()
     except z3.Z3Exception as e:
+        WATCH['since'] = None
         return 'error:' + str(e)[:100], None, time.time() - t0, smt
+    WATCH['since'] = None
     dt = time.time() - t0
     if r == z3.unsat:
         return 'unsat', None, dt, smt
